@@ -403,8 +403,11 @@ def real_parse(s):
 
 
 def compiles(a: str, binary: bool) -> bool:
+    import warnings
     try:
-        re.compile(a.encode() if binary else a)
+        with warnings.catch_warnings():
+            warnings.simplefilter("ignore")
+            re.compile(a.encode() if binary else a)
         return True
     except Exception:
         return False
